@@ -4,7 +4,7 @@ from props import resolver_common as rc
 ID = 'C01'
 LEVEL = 'exploration'
 TECHNIQUE = 'differential oracle: reference resolver model vs real simple.resolve on generated feedback multisets + universal monitor under the repo tests'
-LEVEL_TEXT = 'Held on the resolves observed: every generated report (feedback multiset x suppression set x creation order x re-resolve history) is resolved by the real code and compared with an independent model of eligibility, ranking and tie-break; never-raises is observed on the same executions. Exploration, not proof: the input space is unbounded.'
+LEVEL_TEXT = 'Held on the resolves observed: every generated report (feedback multiset x suppression set x creation order x re-resolve history) is resolved by the real code and compared with an independent model of eligibility, ranking and tie-break; never-raises is observed on the same executions; the sectional resolver is judged per section with the sections\' feedback interleaved. Exploration, not proof: the input space is unbounded.'
 LEVEL_NOTE = 'Trusts the reference model (written from the statement/docs) and CPython; cells the statement leaves open are skipped and counted.'
 RULE = rc.RULES[ID]
 ASSUMPTIONS = [
